@@ -4,7 +4,7 @@ From Coq Require Import List ZArith QArith Bool.
 From PV Require Import lib.Sx lib.Str lib.Result model.GenSccw model.SccWrap model.SccWrite spec.SpecSccw.
 From PV Require Import proofs.SccWriteFacts proofs.SccWrapFacts proofs.SccWordsFacts proofs.SccDecodeFacts
      proofs.SccLayoutFacts proofs.SccTimingFacts model.SccRoundTrip model.SccDecoder proofs.SccDocFacts proofs.SccComposeFacts
-     proofs.SccRoundTripFacts.
+     proofs.SccRoundTripFacts proofs.SccwBridgeFacts.
 Import ListNotations.
 Open Scope Q_scope.
 
@@ -149,6 +149,36 @@ Theorem C17_roundtrip_basic_pairs_partial :
           (filter (fun c => negb (c =? 32)%Z) basic_cps) = true.
 Proof. exact roundtrip_basic_pairs. Qed.
 Print Assumptions C17_roundtrip_basic_pairs_partial.
+
+(* wave 5: every number of rows 1..15 - hence every preamble address code the writer can emit -, as explicit lines and as
+   rows produced by wrapping, alone and between other cues, through BOTH models (sample theorem) *)
+Theorem C17_roundtrip_every_row_count_partial :
+  forallb (fun n => roundtrip_ok (one_cap (n_lines n)) && roundtrip_ok (three_caps (n_lines n))
+                    && roundtrip_ok (one_cap (n_wrapped n))) (seq 1 15) = true.
+Proof. exact roundtrip_every_row_count. Qed.
+Print Assumptions C17_roundtrip_every_row_count_partial.
+
+(* wave 5: the writer's word stream in closed form, and its relation to builder sccr's pop-on programs (spec/SpecScc05.v).
+   The stream of a text over the basic set on <= 15 rows is, row by row, PAC PAC followed by the row's bytes in pairs
+   (filler 0x80 for an odd tail); the character words are exactly sccr's `pack true` of the row's characters; the PACs are
+   the INDENT form with indent 0 (attribute 16), which sccr's `row` type cannot express (it emits the style form 0..15 at
+   indent 0) - together with the EDM EDM in front of EOC EOC this is why `C05_popon_refines_608` does not apply to the
+   writer's documents as they are, and why the re-read clause for arbitrary texts stays a checked correspondence *)
+Theorem C17_word_stream_closed_form : forall text ws, (length (layout_rows text) <= 15)%nat -> basic_text text = true ->
+  text_to_words text = Ok ws -> ws = flat_map roww (layout_rows text).
+Proof. exact text_words_explicit. Qed.
+Print Assumptions C17_word_stream_closed_form.
+Theorem C17_row_characters_are_608_pack : forall line, forallb is_basic line = true ->
+  map word_z (pair_up (map byte_of line))
+  = SpecScc05.pack true (flat_map SpecScc05.toks_of_item (map SpecScc05.Ch line)) None.
+Proof. exact row_chars_emit. Qed.
+Print Assumptions C17_row_characters_are_608_pack.
+Theorem C17_pac_is_indent_form :
+  forallb (fun row => match py_index sccw_pac_high_byte_by_row row, py_index sccw_pac_low_byte_by_row_restricted row with
+                      | Ok h, Ok l => ((h * 256 + l =? Spec608.pac_word row 16) && negb (h * 256 + l =? Spec608.pac_word row 0))%Z
+                      | _, _ => false end) (map Z.of_nat (seq 1 15)) = true.
+Proof. exact tbl_pac_is_indent_form. Qed.
+Print Assumptions C17_pac_is_indent_form.
 
 (* ---- timing ------------------------------------------------------------------------------------------ *)
 (* under the spacing hypothesis the frame numbers written are non-negative and non-decreasing *)
